@@ -114,6 +114,7 @@ func main() {
 	tier := flag.String("tier", "", "quick|thorough")
 	replay := flag.String("replay", "", "replay file")
 	keep := flag.Bool("keep", false, "keep build directory")
+	_ = flag.Bool("warm", false, "with id \"all\": warm the build cache")
 	shardsFlag := flag.Int("shards", 0, "override shard count")
 	flag.Usage = func() { fmt.Fprintln(os.Stderr, "usage: vcheck [flags] <property-id>") }
 	// allow flags after the id
@@ -131,6 +132,18 @@ func main() {
 	if id == "" {
 		flag.Usage()
 		os.Exit(2)
+	}
+	if id == "all" {
+		// --warm: build every worker variant once so that the Go build cache is hot
+		bdir := filepath.Join(verifDir, ".build", "warm")
+		_ = os.MkdirAll(bdir, 0o755)
+		for _, b := range []build{bPlain, bDebug, bSched, bRace} {
+			if _, err := buildWorker(bdir, b); err != nil {
+				fmt.Fprintln(os.Stderr, "warm:", err)
+			}
+		}
+		_ = os.RemoveAll(bdir)
+		return
 	}
 	if *tier == "" {
 		*tier = os.Getenv("VERIF_TIER")
